@@ -162,6 +162,8 @@ fn cmd_tree(args: &[String]) {
         match t {
             "full" => tree_exec::run_target("full", &tree_exec::mk_full, &scenario, &mut it, &mut out, tamper_every),
             "optimal" => tree_exec::run_target("optimal", &tree_exec::mk_optimal, &scenario, &mut it, &mut out, tamper_every),
+            "full-il" => tree_exec::run_target("full-il", &tree_exec::mk_full_il, &scenario, &mut it, &mut out, tamper_every),
+            "optimal-il" => tree_exec::run_target("optimal-il", &tree_exec::mk_optimal_il, &scenario, &mut it, &mut out, tamper_every),
             #[cfg(feature = "pmtree")]
             "pm" => tree_exec::run_target("pm", &tree_exec::mk_pm, &scenario, &mut it, &mut out, tamper_every),
             #[cfg(feature = "pmtree")]
